@@ -18,7 +18,9 @@
     Node limit ([bdd.max_nodes] of the wrapped manager): the theorems that
     conclude that [add_expr] SUCCEEDS ([C05a_add_expr], and the round trips
     in [C05a_to_expr], [C05a_to_expr_text]) assume an unbounded table,
-    [max_nodes (mgr a) = None]; the total statements ([C05a_add_expr_any],
+    [max_nodes (mgr a) = None] (in the latter two the hypothesis guards the
+    round trip only: [to_expr] itself is read-only and succeeds for any
+    limit); the total statements ([C05a_add_expr_any],
     [C05a_add_expr_any_dynamic], the syntax error, the dead handle) hold for
     any limit: the error may then be [ERuntime] (the [RuntimeError] of a full
     table), and then no handle is created.
@@ -151,7 +153,7 @@ Print Assumptions C05a_add_expr_syntax_error.
 Theorem C05a_to_expr w m h u :
   let a := aworld_get w m in
   let w' := fst (astep_to_expr w m h) in
-  AInv a → max_nodes (mgr a) = None → handles a !! h = Some u →
+  AInv a → handles a !! h = Some u →
   ∃ t : Parser.ast,
     snd (astep_to_expr w m h) = Ok (VS (expr_text t)) ∧
     aworld_get w' m = a ∧
@@ -160,7 +162,7 @@ Theorem C05a_to_expr w m h u :
     lex (te_spellings t) = Some (te_tokens t) ∧
     parse code_prec (te_tokens t) = Some t ∧
     split_formula (expr_text t) = te_spellings t ∧
-    ∀ w1, aworld_get w1 m = a →
+    ∀ w1, max_nodes (mgr a) = None → aworld_get w1 m = a →
       let a2 := aworld_get (fst (astep_expr w1 m (te_spellings t))) m in
       snd (astep_expr w1 m (te_spellings t)) = Ok (VN (next_hid a)) ∧
       handles a !! next_hid a = None ∧
@@ -177,14 +179,15 @@ Print Assumptions C05a_to_expr.
 Theorem C05a_to_expr_text w m h u :
   let a := aworld_get w m in
   let w' := fst (astep_to_expr w m h) in
-  AInv a → max_nodes (mgr a) = None → handles a !! h = Some u →
+  AInv a → handles a !! h = Some u →
   ∃ txt, snd (astep_to_expr w m h) = Ok (VS txt) ∧ aworld_get w' m = a ∧
+    (max_nodes (mgr a) = None →
     let a2 := aworld_get (fst (astep_expr w' m (split_formula txt))) m in
     snd (astep_expr w' m (split_formula txt)) = Ok (VN (next_hid a)) ∧
     handles a !! next_hid a = None ∧
     handles a2 = <[next_hid a := u]> (handles a) ∧
     next_hid a ≠ h ∧ handles a2 !! h = Some u ∧ handles a2 !! next_hid a = Some u ∧
-    AInv a2 ∧ AKeepAll a a2.
+    AInv a2 ∧ AKeepAll a a2).
 Proof. exact (astep_to_expr_text w m h u). Qed.
 Print Assumptions C05a_to_expr_text.
 
